@@ -78,9 +78,33 @@ func c11ListLiteral(names []string) string {
 	return "[" + strings.Join(qs, ", ") + "]"
 }
 
-func (f c11File) source() string {
+func (f c11File) source() string { return f.sourceWith(nil) }
+
+// sourceWith prints the file with every written name passed through tr (nil = as written)
+func (f c11File) sourceWith(tr func(ref string) string) string {
 	if f.Plain {
 		return f.Items[0].Text
+	}
+	if tr != nil {
+		g := f
+		g.Extends = ""
+		if f.Extends != "" {
+			g.Extends = tr(f.Extends)
+		}
+		g.Items = append([]c11Item(nil), f.Items...)
+		for i := range g.Items {
+			if g.Items[i].Ref != "" {
+				g.Items[i].Ref = tr(g.Items[i].Ref)
+			}
+			if len(g.Items[i].Names) > 0 {
+				ns := make([]string, len(g.Items[i].Names))
+				for k, n := range g.Items[i].Names {
+					ns[k] = tr(n)
+				}
+				g.Items[i].Names = ns
+			}
+		}
+		return g.sourceWith(nil)
 	}
 	var sb strings.Builder
 	if f.Extends != "" {
